@@ -90,9 +90,19 @@ fn splitmix(mut x: u64) -> u64 {
     z ^ (z >> 31)
 }
 
-/// per-position amplitude in grid units, locally injective
+/// source position -> the position whose value it carries: every third block of four frames is a plateau (four equal
+/// frames: a blend of two equal frames must be that frame), elsewhere the identity
+fn plateau(i: u64) -> u64 {
+    if (i / 4) % 3 == 2 {
+        i - i % 4
+    } else {
+        i
+    }
+}
+
+/// per-position amplitude in grid units, locally injective outside the plateaus
 fn a(i: u64) -> i64 {
-    ((i * 7919) % 2003) as i64 - 1001
+    ((plateau(i) * 7919) % 2003) as i64 - 1001
 }
 
 pub trait RF: Frame + std::fmt::Debug
@@ -117,19 +127,20 @@ impl RF for [f32; 2] {
 impl RF for i16 {
     const FT: FT = FT::I16;
     fn at(i: u64) -> Self {
-        (a(i) * 16) as i16
+        // odd values: a blend of two equal frames computed as l*(1-x) + l*x rather than l + 0*x rounds below l
+        (a(i) * 16 + 3) as i16
     }
 }
 impl RF for [i32; 2] {
     const FT: FT = FT::I32x2;
     fn at(i: u64) -> Self {
-        [(a(i) as i32) << 18, -((a(i + 1) as i32) << 17)]
+        [((a(i) as i32) << 18) + 1_000_003, -((a(plateau(i) + 1) as i32) << 17) - 7]
     }
 }
 impl RF for u8 {
     const FT: FT = FT::U8;
     fn at(i: u64) -> Self {
-        (128 + ((i * 37) % 201) as i64 - 100) as u8
+        (128 + ((plateau(i) * 37) % 201) as i64 - 100) as u8
     }
 }
 
@@ -222,7 +233,9 @@ fn check_linear_channel(k: Kind, got: Val, l: Val, r: Val, frac_num: i128, delta
                     return Err(format!("linear output amplitude {} outside [{}, {}] (blend of {} and {} near fraction {}/2^64)", g, lo, hi, la, ra, frac_num));
                 }
             }
-            let (lo, hi) = (la.min(ra) - if exact { 0 } else { 1 }, la.max(ra) + if exact { 0 } else { 1 });
+            // l + (r - l) * x with x in [0, 1) cannot round outside [l, r] (the difference of two integer amplitudes is exact
+            // in f64 and rounding is monotone), and truncation toward zero keeps it inside: exact in both regimes
+            let (lo, hi) = (la.min(ra), la.max(ra));
             if g < lo || g > hi {
                 return Err(format!("linear output amplitude {} outside the interval spanned by its two source frames [{}, {}]", g, la.min(ra), la.max(ra)));
             }
